@@ -92,7 +92,8 @@ func NewDirector(rt *verifsim.Runtime, ch *Choices, budget int) *Director {
 
 // DrawPolicy chooses the scheduling policy of the run.
 func (d *Director) DrawPolicy() {
-	d.Policy = d.Ch.Weighted("policy", []int{3, 4, 2, 0})
+	d.Policy = d.Ch.Weighted("policy", []int{6, 8, 4, 1})
+	d.StarvePref = []string{"manageReader", "manageStreams", "cancel", "cli"}[d.Ch.Pick("policy", 4)]
 	d.StickyP = []float64{0.5, 0.8, 0.95}[d.Ch.Pick("policy", 3)]
 	if d.Policy == PolPCT && !d.Ch.Replay {
 		r := d.Ch.rng("pct")
@@ -163,7 +164,7 @@ func (d *Director) pick(r *Rand, cands []*verifsim.Task, nclock int) int {
 	case PolStarve:
 		var ok []int
 		for i, t := range cands {
-			if !strings.HasPrefix(t.Name, d.StarvePref) {
+			if !strings.Contains(t.Name, d.StarvePref) {
 				ok = append(ok, i)
 			}
 		}
